@@ -7,6 +7,8 @@ use url::form_urlencoded::parse as parse_query;
 
 const URL_ENCODE_SET: &AsciiSet = &CONTROLS.add(b' ').add(b'"').add(b'#').add(b'<').add(b'>');
 const QUERY_ENCODE_SET: &AsciiSet = &CONTROLS.add(b' ').add(b'"').add(b'#').add(b'<').add(b'>').add(b'+');
+// Skipped params are put back into a target url: what delimits params or starts an escape stays encoded there
+const SKIPPED_ENCODE_SET: &AsciiSet = &QUERY_ENCODE_SET.add(b'%').add(b'&').add(b'=');
 
 #[derive(Serialize, Deserialize, Debug, Clone, Hash)]
 pub struct PathAndQueryWithSkipped {
@@ -90,7 +92,12 @@ impl PathAndQueryWithSkipped {
                         skipped_query_params.push('&')
                     }
 
-                    skipped_query_params.push_str(query_param.as_str())
+                    skipped_query_params.push_str(&utf8_percent_encode(key, SKIPPED_ENCODE_SET).to_string());
+
+                    if !value.is_empty() {
+                        skipped_query_params.push('=');
+                        skipped_query_params.push_str(&utf8_percent_encode(value, SKIPPED_ENCODE_SET).to_string());
+                    }
                 } else {
                     if !query_string.is_empty() {
                         query_string.push('&');
